@@ -184,6 +184,9 @@ pub struct SchedReader {
     pub rpend: usize,
     pub caps: Vec<usize>,
     pub sizes: Vec<Sz>,
+    /// fill the ReadBuf the way adapter-style transports do: `initialize_unfilled()` (which zero-initialises the
+    /// whole window), copy, `advance(n)` — instead of `put_slice`
+    pub init_mode: bool,
 }
 
 impl SchedReader {
@@ -195,6 +198,7 @@ impl SchedReader {
             rpend: 0,
             caps: Vec::new(),
             sizes: Vec::new(),
+            init_mode: false,
         }
     }
 }
@@ -228,10 +232,15 @@ impl AsyncRead for SchedReader {
             }
             Some(_) => {
                 let mut n = 0;
+                let mut staged: Vec<u8> = Vec::new();
                 while n < cap {
                     match me.atoms.front() {
                         Some(Atom::B(b)) => {
-                            buf.put_slice(&[*b]);
+                            if me.init_mode {
+                                staged.push(*b);
+                            } else {
+                                buf.put_slice(&[*b]);
+                            }
                             me.atoms.pop_front();
                             n += 1;
                         }
@@ -241,6 +250,11 @@ impl AsyncRead for SchedReader {
                         }
                         Some(Atom::P) | None => break,
                     }
+                }
+                if me.init_mode {
+                    let dst = buf.initialize_unfilled();
+                    dst[..n].copy_from_slice(&staged);
+                    buf.advance(n);
                 }
                 me.used += n;
                 me.sizes.push(Sz::N(n));
